@@ -524,3 +524,51 @@ def check_C10(ctx):
                   "file is replayed and the delivered text compared with std's lossy conversion of the model's raw lines; bundled and random "
                   "texts (with hostile characters injected) are decoded in four encodings and must agree, invalid UTF-8 / unpaired surrogates "
                   "must equal the per-line lossy reference, and (thorough) every Unicode scalar value is swept as metadata content")
+
+
+# ----------------------------------------------------------------------------
+RECORD_SECTIONS = ["General", "Editor", "Metadata", "Difficulty", "Events", "Colours"]
+
+
+def records_cases(ctx, section, maxrecs, colon="first", expect_violation=False, inv=None):
+    name = "MC_Records_%s_%d%s" % (section, maxrecs, "" if colon == "first" else "_secondcolon")
+    cases = os.path.join(ctx.work, name + ".ndjson")
+    body = cases + ".body"
+    for p in (cases, body):
+        if os.path.exists(p):
+            os.remove(p)
+    cfg = dict(spec="Spec", invariants=inv or ["LastWins", "ARRule", "Ranges"], properties=[] if expect_violation else ["RejectStutters"],
+               constants=dict(Section='"%s"' % section, MaxRecs=str(maxrecs), Emit="FALSE" if expect_violation else "TRUE",
+                              ColonSplit='"%s"' % colon))
+    r = tlc(ctx, "Records", name, cfg, workers=14, timeout=3000, cases_file=None if expect_violation else body,
+            expect_violation=expect_violation, count=not expect_violation)
+    if expect_violation:
+        return None
+    with open(cases, "w") as f:
+        f.write(json.dumps({"alpha": r["alpha"]}) + "\n")
+        with open(body) as b:
+            for ln in b:
+                f.write(ln)
+    os.remove(body)
+    return cases
+
+
+def check_C11(ctx):
+    thorough = ctx.tier == "thorough"
+    sany(ctx, "Records")
+    for sec in RECORD_SECTIONS:
+        n = 2
+        if thorough and sec != "General":
+            n = 3
+        f = records_cases(ctx, sec, n)
+        summ = harness(ctx, ["records", "replay", "--spellings", "2"], cases_file=f, name="records-" + sec, timeout=3600)
+        report_mismatches(ctx, summ, "[%s] records decode differently from the format rules of Records.tla" % sec)
+    ctx.assumptions += ["value alphabets of Records.tla (integers, hundredths, boundary classes, text pool); f32 fields are not given the "
+                        "classes 2^31 / 2^31-1 (not representable in f32: outcome not determined by the statement)",
+                        "[Editor] Bookmarks is covered by the C03 check"]
+    return finish(ctx, "model_checking",
+                  "Records.tla states the format rules as tables (type per key, conversion per type, defaults) and TLC checks, on every "
+                  "sequence of records up to the bound over every recognised key x value class (plus unknown keys, duplicates, event and "
+                  "colour shapes), that last-valid-occurrence-wins, the AR/OD rule, clamps and reject-is-a-stutter hold; every sequence is "
+                  "spelled twice and decoded by the section's own decoder and by Beatmap, the decoded struct compared field by field with "
+                  "the predicted state and the per-line Ok/Err with the predicted verdicts; non-trivial = distinct non-empty sequences")
